@@ -1,9 +1,9 @@
 import pathlib
 from typing import Sequence
 
-from visions.types.file import File
+from visions.types.file import File, path_exists
 
 
 @File.contains_op.register
 def file_contains(sequence: Sequence, state: dict) -> bool:
-    return all(isinstance(p, pathlib.Path) and p.exists() for p in sequence)
+    return all(isinstance(p, pathlib.Path) and path_exists(p) for p in sequence)
